@@ -34,7 +34,10 @@ CONSTANTS Part,        \* "threads" | "borrows"
 RefKinds == {"slice", "vecref", "arrref", "cloned_slice"}
 ValKinds == {"vec", "array", "range"}
 IterKinds == {"iter"}
-Kinds == RefKinds \cup ValKinds \cup IterKinds
+\* a client-defined implementor of the public trait AtomicIter (caps = prog.iter) wrapped by cloned()/copied():
+\* the adaptor is shared with / moved to the other thread, which then calls into the client's object
+UserKinds == {"user_cloned", "user_copied"}
+Kinds == RefKinds \cup ValKinds \cup IterKinds \cup UserKinds
 Caps == {[send |-> s, sync |-> y] : s \in BOOLEAN, y \in BOOLEAN}
 Uses == {"local", "share", "move"}
 Full == [send |-> TRUE, sync |-> TRUE]
@@ -48,7 +51,8 @@ vars == <<prog, pc, acc, env, invalid, bad>>
 TInit ==
   /\ prog \in {[kind |-> k, elem |-> e, iter |-> i, use |-> u] :
                  k \in Kinds, e \in Caps, i \in Caps, u \in Uses}
-  /\ (prog.kind \notin IterKinds => prog.iter = Full)      \* no wrapped iterator: one representative
+  /\ (prog.kind \notin IterKinds \cup UserKinds => prog.iter = Full)      \* no wrapped object: one representative
+  /\ (prog.kind \in UserKinds => prog.elem = Full)
   /\ (prog.kind = "range" => prog.elem = Full)             \* ranges yield integers
   /\ pc = "start" /\ acc = {} /\ env = {} /\ invalid = {} /\ bad = FALSE
 
@@ -56,6 +60,7 @@ TInit ==
 Pulls(th) ==
   (IF prog.kind \in RefKinds THEN {<<"elem", "ref", th>>} ELSE {<<"elem", "own", th>>})
   \cup (IF prog.kind \in IterKinds THEN {<<"iter", "own", th>>} ELSE {})
+  \cup (IF prog.kind \in UserKinds THEN {<<"iter", IF prog.use = "move" THEN "own" ELSE "ref", th>>} ELSE {})
 
 TNext ==
   \/ /\ pc = "start"
